@@ -217,19 +217,7 @@ impl PushOperator for DistinctMaterializingOperator {
         }
 
         let num_cols = self.num_columns.unwrap_or(0);
-        let mut columns: Vec<ValueVector> = (0..num_cols).map(|_| ValueVector::new()).collect();
-
-        for row in &self.rows {
-            for (col_idx, col) in columns.iter_mut().enumerate() {
-                let val = row.get(col_idx).cloned().unwrap_or(Value::Null);
-                col.push(val);
-            }
-        }
-
-        let chunk = DataChunk::new(columns);
-        sink.consume(chunk)?;
-
-        Ok(())
+        super::emit_rows(&self.rows, num_cols, sink)
     }
 
     fn preferred_chunk_size(&self) -> ChunkSizeHint {
